@@ -49,7 +49,8 @@ theorem variables_rejected (rx : RegexOk) (lim : Nat) (a b : Bool) (p n : String
 theorem comparison_never_crashes (d : Doc) (op : Spec.CmpOp) (m n : MVal F)
     (hm : ∀ i, m ≠ .int i) (hm' : m ≠ .nilv) (hn : ∀ i, n ≠ .int i) (hn' : n ≠ .nilv) :
     ∃ b, cmpM d op m n = .ok b := by
-  cases m <;> cases n <;> simp_all [cmpM, xtypeOf, asBoolM, bind, Except.bind, pure, Except.pure]
+  cases m <;> cases n <;> cases op <;>
+    simp_all [cmpM, xtypeOf, asBoolM, numBesideBoolM, Spec.CmpOp.isRel, bind, Except.bind, pure, Except.pure]
 
 /-- `mod` by zero is a value (NaN by IEEE), not an integer division crash -/
 theorem mod_never_crashes (d : Doc) (cfg : ECfg) (c : Ref) (l1 l2 : String) :
